@@ -5,6 +5,7 @@ import SLE.Driver.Types
 import SLE.Driver.JsonD
 import SLE.Driver.VMD
 import SLE.Driver.UnifyD
+import SLE.Driver.PipelineD
 /-! `sle_driver`: reads `family\tpayload\timpl_answer`, prints `model_answer\toracle_verdict`. -/
 open SLE.Driver
 
@@ -23,6 +24,8 @@ def handleLine (line : String) : String :=
       | "vm" => VMD.handle payload impl
       | "vm2" => VMD.handle2 payload impl
       | "unify" => UnifyD.handle payload impl
+      | "pipeline" => PipelineD.handle payload impl
+      | "orders" => PipelineD.handleOrders payload impl
       | _ => ("unknown-family", "ok")
     m ++ "\t" ++ o
   | _ => "bad-line\tok"
